@@ -325,7 +325,8 @@ def dump_one(f: TextIO, data: IOData):
 
     # CHAR_MUL
     f.write("$CHAR_MULT\n")
-    f.write(f"  {data.charge:.0f} {data.spinpol + 1:.0f}\n")
+    # MKL has no field for core charges and the loader derives nelec = sum(atnums) - charge.
+    f.write(f"  {data.atnums.sum() - data.nelec:.0f} {data.spinpol + 1:.0f}\n")
     f.write("$END\n")
     f.write("\n")
 
